@@ -390,7 +390,13 @@ func (t *Table) InsertRow(position int, data []string) error {
 		return fmt.Errorf("表格没有列定义，无法插入行")
 	}
 
+	// 新行按网格列数创建：第一行含水平合并单元格时，其物理单元格数少于网格列数
 	colCount := len(t.Rows[0].Cells)
+	useTemplate := true
+	if t.Grid != nil && len(t.Grid.Cols) > colCount {
+		colCount = len(t.Grid.Cols)
+		useTemplate = false
+	}
 	if len(data) > colCount {
 		return fmt.Errorf("数据列数(%d)超过表格列数(%d)", len(data), colCount)
 	}
@@ -405,7 +411,13 @@ func (t *Table) InsertRow(position int, data []string) error {
 	for i := 0; i < colCount; i++ {
 		// 深拷贝单元格属性
 		var cellProps *TableCellProperties
-		if templateRow.Cells[i].Properties != nil {
+		if !useTemplate {
+			// 第一行不能作为模板：使用网格列宽
+			cellProps = &TableCellProperties{
+				TableCellW: &TableCellW{W: t.Grid.Cols[i].W, Type: "dxa"},
+				VAlign:     &VAlign{Val: "center"},
+			}
+		} else if templateRow.Cells[i].Properties != nil {
 			cellProps = &TableCellProperties{}
 			// 复制宽度
 			if templateRow.Cells[i].Properties.TableCellW != nil {
